@@ -131,15 +131,18 @@ func c10Check(c c10Case, rec *evid.Recorder) *Fail {
 				// (no maximality demand for malformed numbers such as `0b2`; well-formed
 				// shapes are pinned by the Frags comparison below)
 			case b == '"' || b == '\'':
-				if t.Type != token.STRING {
+				var term bool
+				e, term = reflex.StringEnd(src, s)
+				// an unterminated literal may be reported as a string or as an illegal token
+				if t.Type != token.STRING && !(t.Type == token.ILLEGAL && !term) {
 					return failf("token %d %v: quote-initial lexeme typed %d\nsrc %q", i, t, t.Type, src)
 				}
-				e, _ = reflex.StringEnd(src, s)
 			case b == '`':
-				if t.Type != token.RAW_STRING {
+				var term bool
+				e, term = reflex.StringEnd(src, s)
+				if t.Type != token.RAW_STRING && !(t.Type == token.ILLEGAL && !term) {
 					return failf("token %d %v: backtick-initial lexeme typed %d\nsrc %q", i, t, t.Type, src)
 				}
-				e, _ = reflex.StringEnd(src, s)
 			default:
 				if op := reflex.OperatorAt(src, s); op != "" {
 					e = s + len(op)
